@@ -307,6 +307,7 @@ struct Agg {
 	found: Vec<Found>,
 	found_keys: BTreeSet<(String, String)>,
 	known_suppressed: BTreeMap<String, u64>,
+	known_first: BTreeMap<String, Found>,
 	lib_panics: BTreeMap<String, u64>,
 	harness_errors: Vec<String>,
 	samples: Vec<Value>,
@@ -352,7 +353,11 @@ fn absorb(check: &Check, scen_idx: usize, seed: u64, params: &BTreeMap<String, u
 	}
 	for v in vs {
 		if let Some(k) = known.iter().find(|k| matches_known(k, &v)) {
-			*a.known_suppressed.entry(format!("{}/{}", k.rule, k.sig)).or_insert(0) += 1;
+			let key = format!("{}/{}", k.rule, k.sig);
+			*a.known_suppressed.entry(key.clone()).or_insert(0) += 1;
+			if !a.known_first.contains_key(&key) {
+				a.known_first.insert(key, Found { scen_idx, seed, params: params.clone(), tape: out.tape.clone(), v: v.clone() });
+			}
 			continue;
 		}
 		let key = (v.rule.clone(), v.sig.clone());
@@ -380,6 +385,8 @@ pub fn run_check(check: &Check, tier: &str) -> i32 {
 
 	// 0. known findings and regressions first
 	let mut known_lines = Vec::new();
+	let mut known_pending: Vec<&Known> = Vec::new();
+	let refresh = std::env::var("VERIF_REFRESH_FINDINGS").is_ok();
 	for k in &known {
 		let still = match &k.replay {
 			Some(r) => match read_replay(&verif_dir().join(r)) {
@@ -396,7 +403,8 @@ pub fn run_check(check: &Check, tier: &str) -> i32 {
 			println!("{line}");
 			known_lines.push(line);
 		} else {
-			println!("note: listed finding no longer reproduces from its replay file: {}/{}", k.rule, k.sig);
+			// the tape may have gone stale with a change of the scenario: decided after the search
+			known_pending.push(k);
 		}
 	}
 	let mut regressions_run = 0;
@@ -513,6 +521,35 @@ pub fn run_check(check: &Check, tier: &str) -> i32 {
 	}
 
 	let mut a = agg.into_inner().unwrap();
+	for k in known_pending {
+		let key = format!("{}/{}", k.rule, k.sig);
+		if a.known_suppressed.get(&key).copied().unwrap_or(0) > 0 {
+			let line = format!("KNOWN-FINDING: property={} {}", check.prop, k.what);
+			println!("{line}");
+			known_lines.push(line);
+			println!("note: the replay file of this finding is stale (the scenario changed); it was re-observed {} times in this search; refresh it with VERIF_REFRESH_FINDINGS=1", a.known_suppressed[&key]);
+		} else {
+			println!("note: listed finding was neither reproduced from its replay file nor observed in this search: {}/{}", k.rule, k.sig);
+		}
+	}
+
+	// 2b. maintenance: rewrite the replay files of the listed findings from this search
+	if refresh {
+		for k in &known {
+			let key = format!("{}/{}", k.rule, k.sig);
+			if let (Some(f), Some(rp)) = (a.known_first.get(&key), &k.replay) {
+				let scen = &check.scens[f.scen_idx];
+				let (tape, execs) = shrink(check, scen, f.seed, &f.params, f.tape.clone(), &f.v);
+				let out = run_scen(scen, f.seed, Some(tape.clone()), false, &f.params, true);
+				if let Some(v) = violations_of(check, &out).into_iter().find(|v| v.rule == f.v.rule && v.sig == f.v.sig) {
+					let tmp = write_replay(&replay_dir, check, scen, f.seed, &f.params, &tape, &v, &out.log, &format!("known finding; minimised from {} to {} choices in {} executions", f.tape.len(), tape.len(), execs));
+					let dest = verif_dir().join(rp);
+					std::fs::copy(&tmp, &dest).expect("refresh finding replay");
+					println!("refreshed {}", dest.display());
+				}
+			}
+		}
+	}
 
 	// 3. report violations: minimise, verify replay, print
 	let mut reported = Vec::new();
